@@ -457,9 +457,11 @@ class Phase(Angle):
                 frac += 1
                 count -= 1
 
-            if frac < 0.25:
+            if frac < 0.25 and (precision is None or precision >= 2):
                 # Ensure that we do not get 1e-16, etc., yet can use numpy's
                 # guarantee that the right number of digits is shown.
+                # (The first two decimals are edited below, so a fixed
+                # precision with fewer decimals is formatted directly.)
                 frac_str = func(frac + 0.25)
                 f24 = int(frac_str[2:4])
                 if func is str and (
